@@ -257,6 +257,19 @@ func (x *Exec) applyContract(bc *blockCtx, in ssa.Instruction, f *ssa.Function, 
 			x.havocAllOnCall = true
 		} else {
 			for _, k := range strings.Fields(strings.ReplaceAll(fc.Assigns, ",", " ")) {
+				x.lockedCallCheck(bc, in, ce, k, name)
+				if as := x.assignLoc(ce, k); as != nil {
+					// a single location: only that cell becomes unknown
+					h := x.getHeap(bc.st, as.key)
+					if as.idx == nil {
+						bc.st.heaps[as.key] = x.sto(h, as.ref, x.b.Fresh("assigned_"+shortFn(name), as.elemSort))
+					} else {
+						arrSort := fmt.Sprintf("(Array Int %s)", as.elemSort)
+						inner := x.sel(h, as.ref, arrSort)
+						bc.st.heaps[as.key] = x.sto(h, as.ref, x.sto(inner, as.idx, x.b.Fresh("assigned_"+shortFn(name), as.elemSort)))
+					}
+					continue
+				}
 				x.registerGhost(k)
 				hk := x.resolveHeapName(ce, k)
 				bc.st.heaps[hk] = x.b.Fresh(hk+"_after_"+shortFn(name), x.heapSorts[hk])
@@ -1022,5 +1035,70 @@ func (x *Exec) registerGhost(k string) {
 		x.heapSorts[k] = "(Array Int Int)"
 	} else {
 		x.heapSorts[k] = "Int"
+	}
+}
+
+// assignTarget: one location named in an assigns clause: `*p` (the cell a
+// pointer points to) or `s[i]` (one slice element), evaluated in the entry state.
+type assignTarget struct {
+	key      string
+	ref      *smt.Term
+	idx      *smt.Term // nil for pointer cells
+	elemSort string
+}
+
+func (x *Exec) assignLoc(ce *CEnv, tok string) *assignTarget {
+	if strings.HasPrefix(tok, "*") {
+		e, err := ParseExpr(tok[1:])
+		if err != nil {
+			cfail("assigns: %v", err)
+		}
+		v := x.eval(ce, e)
+		pt, ok := v.Typ.Underlying().(*types.Pointer)
+		if !ok {
+			cfail("assigns: %s is not a pointer", tok[1:])
+		}
+		return &assignTarget{key: x.heapKeyPtr(pt.Elem()), ref: x.asTerm(v), elemSort: x.so.SortOf(pt.Elem())}
+	}
+	if strings.HasSuffix(tok, "]") && !strings.HasPrefix(tok, "H") {
+		e, err := ParseExpr(tok)
+		if err != nil {
+			cfail("assigns: %v", err)
+		}
+		ix, ok := e.(*EIndex)
+		if !ok {
+			return nil
+		}
+		sv := x.eval(ce, ix.X)
+		st, ok := sv.Typ.Underlying().(*types.Slice)
+		if !ok {
+			cfail("assigns: %s is not a slice element", tok)
+		}
+		i := x.coerce(x.eval(ce, ix.I), intT)
+		s := x.asTerm(sv)
+		return &assignTarget{key: x.heapKeySlice(st.Elem()), ref: x.sRef(s), idx: x.b.Add(x.sOff(s), i.T), elemSort: x.so.SortOf(st.Elem())}
+	}
+	return nil
+}
+
+// lockedCallCheck: a callee that (by its contract) writes memory listed in the
+// root contract's `opt lockedwrites` must be called with the lock held.
+func (x *Exec) lockedCallCheck(bc *blockCtx, in ssa.Instruction, ce *CEnv, tok, callee string) {
+	if x.rootC == nil || x.spec > 0 || x.rootC.Opts["lockedwrites"] == "" || strings.HasPrefix(tok, "G_") || strings.HasPrefix(tok, "GA_") {
+		return
+	}
+	var key string
+	if as := x.assignLoc(ce, tok); as != nil {
+		key = as.key
+	} else {
+		key = x.resolveHeapName(ce, tok)
+	}
+	rce := &CEnv{x: x, fr: bc.fr, st: bc.st, pkg: fnPkg(x.root)}
+	for _, t := range strings.Fields(x.rootC.Opts["lockedwrites"]) {
+		if x.resolveHeapName(rce, t) == key {
+			x.registerGhost("G_locked")
+			x.oblige("frame:locked", bc.fr.prefix+"frame:locked-call("+shortFn(callee)+")", bc.reach, x.b.Cmp(">=", x.getHeap(bc.st, "G_locked"), x.b.Int(1)), posOf(in),
+				"call that writes memory shared between workers ("+key+") must hold the lock: "+x.prog.srcLine(posOf(in)), false)
+		}
 	}
 }
